@@ -231,7 +231,11 @@ func GenDoc(t *rapid.T, o DocOpts) Doc {
 					num = strings.Join(hdr[i%2], " ")
 				}
 			}
-			x := mx + float64(rapid.IntRange(0, int(W-2*mx)-40).Draw(t, "bodyNumberX"))
+			room := int(W - 2*mx - Advance*size*float64(runeLen(num)))
+			if room < 0 {
+				room = 0
+			}
+			x := mx + float64(rapid.IntRange(0, room).Draw(t, "bodyNumberX"))
 			add(num, x, y, size, RoleNum)
 		}
 
